@@ -405,6 +405,32 @@ func e2eMakeTree(root string, nodes []e2eNode, seed int64) ([]string, error) {
 
 // e2eCompare projects the destination against the sources.  tops[i] (a source top-level path)
 // is expected under dst/names[i].  Returns per-entry verdicts and the list of unexpected paths.
+// e2eSourceSnapshot: the entries below (and including) a source top-level path, keyed by the
+// path relative to the top's parent.  Snapshots taken before the run are cached so that the
+// comparison is against what the sources were when the transfer started.
+var e2eSrcCache = map[string]map[string]e2eEntry{}
+
+func e2eSourceSnapshot(top string) map[string]e2eEntry {
+	if s, ok := e2eSrcCache[top]; ok {
+		return s
+	}
+	src := map[string]e2eEntry{}
+	info, err := os.Stat(top)
+	if err != nil {
+		return nil
+	}
+	if info.IsDir() {
+		src[filepath.Base(top)] = e2eEntry{Rel: filepath.Base(top), Dir: true}
+		for k, v := range e2eSnapshot(top) {
+			src[filepath.Join(filepath.Base(top), k)] = v
+		}
+	} else {
+		s := e2eSnapshot(filepath.Dir(top))
+		src[filepath.Base(top)] = s[filepath.Base(top)]
+	}
+	return src
+}
+
 func e2eCompare(tops []string, names []string, dst string, pre map[string]e2eEntry) (entries []map[string]any, allSame bool, extra []string) {
 	allSame = true
 	post := e2eSnapshot(dst)
@@ -415,20 +441,9 @@ func e2eCompare(tops []string, names []string, dst string, pre map[string]e2eEnt
 			allSame = false
 			continue
 		}
-		srcRoot := filepath.Dir(top)
-		src := map[string]e2eEntry{}
-		info, err := os.Stat(top)
-		if err != nil {
+		src := e2eSourceSnapshot(top)
+		if src == nil {
 			continue
-		}
-		if info.IsDir() {
-			src[filepath.Base(top)] = e2eEntry{Rel: filepath.Base(top), Dir: true}
-			for k, v := range e2eSnapshot(top) {
-				src[filepath.Join(filepath.Base(top), k)] = v
-			}
-		} else {
-			s := e2eSnapshot(srcRoot)
-			src[filepath.Base(top)] = s[filepath.Base(top)]
 		}
 		for _, k := range e2eSortedKeys(src) {
 			sv := src[k]
